@@ -85,6 +85,8 @@ def run_impl(c):
             res = getattr(obj, op)(*args)
         except ZeroDivisionError:
             return {"ok": False, "error": "ZeroDivisionError"}
+        except Exception as ex:       # anything else the implementation raises is a result too (never the model's)
+            return {"ok": False, "error": f"{type(ex).__name__}: {ex}"}
         rs = res if isinstance(res, tuple) else (res,)
         out = {"ok": True, "res": [G.from_dict(x, adds, nons) for x in rs],
                "after": [G.from_dict(x, adds, nons) for x in args if isinstance(x, dict) and "volume" in x],
@@ -169,7 +171,7 @@ def correspondence(rep, ops, n, tag, translated):
         got = res[j]
         if not out["ok"]:
             errs += 1
-            ok = got[:1] == [0]
+            ok = got[:1] == [0] and out.get("error") == "ZeroDivisionError"
         else:
             ok = got == exp
         key = (c["op"], str(c["a"]), str(c.get("b")), str(c.get("v")), str(c.get("d")), str(c.get("T")))
@@ -186,7 +188,7 @@ def correspondence(rep, ops, n, tag, translated):
     for c, out, got, exp in mism[:3]:
         rep.violation("broken-correspondence",
                       f"core.{c['op']}: implementation and translated model disagree",
-                      {"case": _case_json(c), "impl": exp, "model": got}, False)
+                      {"case": _case_json(c), "impl": exp if out["ok"] else out.get("error"), "model": got}, False)
     if cases:
         rep.samples.append({"correspondence_case": _case_json(cases[0])})
     return cases, outs
@@ -343,7 +345,7 @@ def monitor_c10(rep, n, replay_case=None):
                             bad(f"{nm} does not modify its arguments", cj, "argument changed")
                     if any(res is y for y in dd):
                         bad(f"{nm} returns a fresh flux", cj, "result is the argument object")
-            except (ZeroDivisionError, KeyError, TypeError) as ex:
+            except Exception as ex:
                 bad("operation completes", cj, repr(ex))
             rep.add_eval(("mon", str(cj)), nontrivial=a[0] > 0)
         finally:
@@ -409,7 +411,7 @@ def monitor_c11(rep, n, replay_case=None):
                     if c2[1][k] * a[0] + diff[1][k] != a[1][k] * a[0]:
                         bad("concentration form: remaining + reported = original", cj, adds[k])
             rep.add_eval(("mon11", str(cj)), nontrivial=any(p for p in c["d"]))
-        except (ZeroDivisionError, KeyError, TypeError) as ex:
+        except Exception as ex:
             bad("operation completes", cj, repr(ex))
         finally:
             G.reset_partition()
